@@ -8,6 +8,15 @@ SOURCES = ['c01', 'c02', 'c07', 'c13', 'c14', 'c08', 'c11', 'c16', 'c06', 'c15',
 THOROUGH_SOURCES = ['c04']                                                                      # the closure algorithms on symbolic graphs (minutes)
 
 
+def unfiltered(ctx, fn):
+    keep = ctx.panic_only
+    ctx.panic_only = False
+    try:
+        return fn()
+    finally:
+        ctx.panic_only = keep
+
+
 def run(ctx):
     ctx.panic_only = True
     fams = []
@@ -17,8 +26,13 @@ def run(ctx):
         except ImportError:
             continue
         fams += [(f'{m.upper()}:{name}', fn) for name, fn in mod.families(ctx)]
-    ctx.run_families(fams)
-    ctx.bounds += ['full input space of each encoded kernel under its stated precondition (see the evidence of C01/C02/C06/C07/C08/C11/C13/C14/C15/C16/C19 - thorough: also C04 - for the preconditions)']
+    from . import c20_kernels
+    ctx.panic_only = False          # the index-arithmetic kernels also carry a functional obligation (the edit distance) that anchors the panic claim
+    own = c20_kernels.families(ctx)
+    ctx.panic_only = True
+    ctx.run_families(fams + [(f'C20:{name}', (lambda fn=fn: unfiltered(ctx, fn))) for name, fn in own])
+    ctx.bounds += ['fuzzy_match::levenshtein_distance: words of <= 2 x 2 (+ 3 x 1, 1 x 3; thorough: <= 3 x 3) characters, every character an arbitrary Unicode scalar value (UTF-8 length 1..4 symbolic)',
+                   'full input space of each encoded kernel under its stated precondition (see the evidence of C01/C02/C06/C07/C08/C11/C13/C14/C15/C16/C19 - thorough: also C04 - for the preconditions)']
     ctx.assumptions += ['only the kernels listed in functions_encoded (core kernels, the AST <-> EST / PST / protobuf conversions, the batched-evaluation driver, the FFI and CLI wrapper functions with their callees as stubs); parsers, serde, error rendering and deep-nesting limits - most of C20 - are NOT covered',
                         'panics inside stubbed callees are not visible; modelled std functions panic exactly where std documents (unwrap/expect on None/Err, abs/rem_euclid overflow)']
     return ctx.finish('Solver-decided panic-freedom of the kernels encoded by engine M - cedar-policy-core kernels, format conversions, FFI / CLI wrappers - (narrow slice of C20): for each kernel, the disjunction of the path conditions of all panicking paths '
